@@ -12,7 +12,20 @@ W3_COMPONENTS = {
     "stub": ["Go scheduler/map order/maphash -> simrt PRNG", "wall clock/ticker -> synctest bubble clock", "file system -> simdisk (C19)"],
 }
 
+W2_COMPONENTS = {
+    "real": ["plugin/executable/cache (Exec, lazy refresh via x/sync/singleflight, instrumented)", "pkg/cache, pkg/concurrent_map", "pkg/query_context", "plugin/executable/sequence ChainWalker", "pkg/dnsutils TTL helpers", "miekg/dns"],
+    "stub": ["next plugin -> scripted origin (unique versions, delays, errors)", "wall clock -> synctest bubble clock", "Go scheduler/select/map order -> simrt PRNG"],
+}
+
 PROPS = {
+    "C05": {
+        "level": "exploration",
+        "quick_runs": 6000, "quick_budget_s": 60,
+        "thorough_budget_s": 600,
+        "rule": "C05 scenario: real cache plugin over a scripted origin; 2-9 phases, each advancing the virtual clock to an instant around a boundary of the current entry (k s -1ns/k s/k s+1ns, lifetime +-1ns, lazy window +-1ns) and issuing a burst of 1-8 concurrent queries; answers with TTL mixes incl. 0 and 2^32-1, any rcode, TC, OPT; lazy_cache_ttl off/on; slow/failing refresh.",
+        "components": W2_COMPONENTS,
+        "cfg_dist_keys": ["lazy", "keys", "phases"],
+    },
     "C19": {
         "level": "fault_enumeration",
         "quick_runs": 1500, "quick_budget_s": 90,
